@@ -235,6 +235,17 @@ func (c *Ctx) registrationsFromLocalCtors(call ssa.CallInstruction, fn *ssa.Func
 func (c *Ctx) registrationsThroughHelper(call ssa.CallInstruction, fn *ssa.Function, direct registration) []registration {
 	codecVal := unwrapIface(call.Common().Args[2])
 	ck := paramIndex(fn, codecVal)
+	variadic := false
+	if ck < 0 {
+		// an element of a slice parameter (func RegisterGlobally(codecs ...Codec) { for _, c := range codecs { … } })
+		if u, ok := codecVal.(*ssa.UnOp); ok && u.Op == token.MUL {
+			if ia, ok := u.X.(*ssa.IndexAddr); ok {
+				if k := paramIndex(fn, ia.X); k >= 0 {
+					ck, variadic = k, true
+				}
+			}
+		}
+	}
 	if ck < 0 {
 		return nil
 	}
@@ -244,7 +255,12 @@ func (c *Ctx) registrationsThroughHelper(call ssa.CallInstruction, fn *ssa.Funct
 	if root, f, ok := fieldLoad(synArg); ok && sameBase(root, codecVal) {
 		field = fieldNameOf(root.Type(), f)
 	}
-	if direct.syntax == "" && sk < 0 && field == "" {
+	// the syntax the codec itself reports: c.TransferSyntax()
+	viaMethod := ""
+	if sc, ok := synArg.(*ssa.Call); ok && sc.Call.IsInvoke() && (sc.Call.Value == call.Common().Args[2] || sameBase(unwrapIface(sc.Call.Value), codecVal)) {
+		viaMethod = sc.Call.Method.Name()
+	}
+	if direct.syntax == "" && sk < 0 && field == "" && viaMethod == "" {
 		return nil
 	}
 	var out []registration
@@ -255,29 +271,116 @@ func (c *Ctx) registrationsThroughHelper(call ssa.CallInstruction, fn *ssa.Funct
 				if !ok || cs.Call.StaticCallee() != fn || ck >= len(cs.Call.Args) {
 					continue
 				}
-				cc, ok := unwrapIface(cs.Call.Args[ck]).(*ssa.Call)
-				if !ok || cc.Call.StaticCallee() == nil {
-					return nil
-				}
-				r := registration{syntax: direct.syntax, ctor: cc.Call.StaticCallee(), typ: load.NamedOf(codecVal.Type()), site: cs, fn: g}
-				switch {
-				case sk >= 0 && sk < len(cs.Call.Args):
-					if u, ok := cs.Call.Args[sk].(*ssa.UnOp); ok {
-						if gl, ok := u.X.(*ssa.Global); ok {
-							r.syntax = gl.Name()
+				var ctorCalls []*ssa.Call
+				if variadic {
+					// the argument list is a literal: t = new [n]Codec (varargs); t[k] = make Codec <- NewX(); t[:]
+					sl, ok := cs.Call.Args[ck].(*ssa.Slice)
+					if !ok {
+						return nil
+					}
+					al, ok := sl.X.(*ssa.Alloc)
+					if !ok || al.Referrers() == nil {
+						return nil
+					}
+					for _, r := range *al.Referrers() {
+						ia, ok := r.(*ssa.IndexAddr)
+						if !ok || ia.Referrers() == nil {
+							continue
+						}
+						for _, u := range *ia.Referrers() {
+							st, ok := u.(*ssa.Store)
+							if !ok || st.Addr != ssa.Value(ia) {
+								continue
+							}
+							cc, ok := unwrapIface(st.Val).(*ssa.Call)
+							if !ok || cc.Call.StaticCallee() == nil {
+								return nil
+							}
+							ctorCalls = append(ctorCalls, cc)
 						}
 					}
-				case field != "":
-					r.syntax = ctorSyntaxName(r.ctor, field, 0)
+					if len(ctorCalls) == 0 {
+						return nil
+					}
+				} else {
+					cc, ok := unwrapIface(cs.Call.Args[ck]).(*ssa.Call)
+					if !ok || cc.Call.StaticCallee() == nil {
+						return nil
+					}
+					ctorCalls = append(ctorCalls, cc)
 				}
-				if r.syntax == "" {
-					return nil
+				for _, cc := range ctorCalls {
+					typ := load.NamedOf(codecVal.Type())
+					if rt := cc.Call.StaticCallee().Signature.Results(); rt.Len() > 0 {
+						if n := load.NamedOf(rt.At(0).Type()); n != nil {
+							typ = n
+						}
+					}
+					r := registration{syntax: direct.syntax, ctor: cc.Call.StaticCallee(), typ: typ, site: cs, fn: g}
+					switch {
+					case sk >= 0 && sk < len(cs.Call.Args):
+						if u, ok := cs.Call.Args[sk].(*ssa.UnOp); ok {
+							if gl, ok := u.X.(*ssa.Global); ok {
+								r.syntax = gl.Name()
+							}
+						}
+					case field != "":
+						r.syntax = ctorSyntaxName(r.ctor, field, 0)
+					case viaMethod != "":
+						r.syntax = c.syntaxReportedBy(r.ctor, viaMethod)
+					}
+					if r.syntax == "" {
+						return nil
+					}
+					out = append(out, r)
 				}
-				out = append(out, r)
 			}
 		}
 	}
 	return out
+}
+
+// syntaxReportedBy: the package-level transfer-syntax variable that method (TransferSyntax) of the
+// type ctor builds returns for an object built by ctor: a global named in the method itself, or the
+// construction value of the field the method returns.
+func (c *Ctx) syntaxReportedBy(ctor *ssa.Function, method string) string {
+	rt := ctor.Signature.Results()
+	if rt.Len() == 0 {
+		return ""
+	}
+	ms := c.P.SSA.MethodSets.MethodSet(rt.At(0).Type())
+	var m *ssa.Function
+	for i := 0; i < ms.Len(); i++ {
+		if ms.At(i).Obj().Name() == method {
+			m = c.P.SSA.MethodValue(ms.At(i))
+		}
+	}
+	if m == nil || m.Blocks == nil || len(m.Params) == 0 {
+		return ""
+	}
+	name := ""
+	for _, b := range m.Blocks {
+		if len(b.Instrs) == 0 {
+			continue
+		}
+		ret, ok := b.Instrs[len(b.Instrs)-1].(*ssa.Return)
+		if !ok || len(ret.Results) != 1 {
+			continue
+		}
+		got := ""
+		if u, ok := ret.Results[0].(*ssa.UnOp); ok && u.Op == token.MUL {
+			if g, ok := u.X.(*ssa.Global); ok {
+				got = g.Name()
+			} else if root, f, ok := fieldLoad(u); ok && sameBase(root, m.Params[0]) {
+				got = ctorSyntaxName(ctor, fieldNameOf(root.Type(), f), 0)
+			}
+		}
+		if got == "" || (name != "" && name != got) {
+			return ""
+		}
+		name = got
+	}
+	return name
 }
 
 // ctorSyntaxName: the package-level variable whose value ends up in the named field of the object
@@ -830,15 +933,80 @@ func (c *Ctx) htFactoryRule(r registration, enc *ssa.Function) {
 }
 
 // closureReturnType: the concrete type the function value returns (through MakeInterface).
-func closureReturnType(v ssa.Value) string {
+func closureReturnType(v ssa.Value) string { return closureReturnTypeRec(v, 0) }
+
+// cellStores: the values stored into a local cell (a variable captured by closures lives in one).
+func cellStores(cell ssa.Value) []ssa.Value {
+	var out []ssa.Value
+	if cell.Referrers() == nil {
+		return nil
+	}
+	for _, r := range *cell.Referrers() {
+		if st, ok := r.(*ssa.Store); ok && st.Addr == cell {
+			out = append(out, st.Val)
+		}
+	}
+	return out
+}
+
+func closureReturnTypeRec(v ssa.Value, depth int) string {
 	var fn *ssa.Function
+	join := func(vals []ssa.Value) string {
+		var out []string
+		for _, x := range vals {
+			if t := closureReturnTypeRec(x, depth+1); t != "" {
+				out = append(out, strings.Split(t, ",")...)
+			} else {
+				return ""
+			}
+		}
+		sort.Strings(out)
+		return strings.Join(uniq(out), ",")
+	}
+	if depth > 4 {
+		return ""
+	}
 	switch x := v.(type) {
 	case *ssa.MakeClosure:
 		fn, _ = x.Fn.(*ssa.Function)
 	case *ssa.Function:
 		fn = x
 	case *ssa.ChangeType:
-		return closureReturnType(x.X)
+		return closureReturnTypeRec(x.X, depth+1)
+	case *ssa.Phi:
+		return join(x.Edges)
+	case *ssa.UnOp:
+		// a function kept in a local variable: htBlocks := func(…) …; decoder.SetBlockDecoderFactory(htBlocks)
+		// — read back from its cell, possibly from inside a closure that captured the cell
+		if x.Op != token.MUL {
+			return ""
+		}
+		switch cell := x.X.(type) {
+		case *ssa.Alloc:
+			return join(cellStores(cell))
+		case *ssa.FreeVar:
+			inner := cell.Parent()
+			outer := inner.Parent()
+			if outer == nil {
+				return ""
+			}
+			idx := -1
+			for i, fv := range inner.FreeVars {
+				if fv == cell {
+					idx = i
+				}
+			}
+			for _, b := range outer.Blocks {
+				for _, ins := range b.Instrs {
+					if mc, ok := ins.(*ssa.MakeClosure); ok && mc.Fn == ssa.Value(inner) && idx >= 0 && idx < len(mc.Bindings) {
+						if al, ok := mc.Bindings[idx].(*ssa.Alloc); ok {
+							return join(cellStores(al))
+						}
+					}
+				}
+			}
+		}
+		return ""
 	}
 	if fn == nil {
 		return ""
